@@ -253,7 +253,8 @@ PROPS["C09"] = dict(
 PROPS["C10"] = dict(
     module="Panacea.Properties.C10",
     obligations=["Panacea.C10.crash_discards_working", "Panacea.C10.restart_resumes_committed",
-                 "Panacea.C10.crash_then_redeliver_eq_uninterrupted", "Panacea.C10.query_reads_committed_snapshot"],
+                 "Panacea.C10.crash_then_redeliver_eq_uninterrupted", "Panacea.C10.query_reads_committed_snapshot",
+                 "Panacea.C10.upgrade_handlers_touch_only_block_state"],
     streams=[dict(name="restart", quick=6, thorough=120, thorough_seeds=3)],
     trusted=["node model Panacea/Model/App.lean (committed states per height + a working copy); that the real application has no state outside the mounted stores is the tie Ties/C10 (keeper structs, package variables, mounted stores regenerated from the source)",
              "restart stream (support): the real application re-opened on the same database after Commit / BeginBlock / any transaction prefix / EndBlock, compared with an uninterrupted twin (height, app hash, dumps, all later blocks)",
@@ -264,7 +265,8 @@ PROPS["C19"] = dict(
     module="Panacea.Properties.C19",
     obligations=["Panacea.C19.fold_descriptors_eq_mounted", "Panacea.C19.every_mounted_store_accounted",
                  "Panacea.C19.no_mounted_store_deleted", "Panacea.C19.added_stores_are_mounted", "Panacea.C19.no_double_add",
-                 "Panacea.C19.last_upgrade_is_v2_2_1", "Panacea.C19.custom_modules_not_migrated"],
+                 "Panacea.C19.last_upgrade_is_v2_2_1", "Panacea.C19.custom_modules_not_migrated",
+                 "Panacea.C10.upgrade_handlers_touch_only_block_state"],
     streams=[dict(name="upgrade", quick=8, thorough=100, thorough_seeds=3)],
     trusted=["translator /verif/extract: Generated.upgrades (app.Upgrades with each descriptor's name, Added, Deleted), Generated.mountedStores (arguments of sdk.NewKVStoreKeys), Generated.consensusVersions, regenerated from the source on every run; the theorems are about these regenerated tables",
              "recorded constant `baseline` (stores of the release before v2.0.5)",
